@@ -49,8 +49,14 @@ D128 == /\ (Ok(Tr.al) /\ C2) => PairsOf(Tr.al.v) = MachineAl(Tr.src, Tr.tgt, C)
         /\ (Tr.unit /\ Ok(Tr.sal) /\ C16) => PairsOf(Tr.sal.v) = MachineSubAl(Tr.src, Tr.tgt)
 
 B(c, v) == IF c THEN 0 ELSE v
+\* kind = "scale": one pair over more than 65 536 distinct symbols (far beyond what TLC enumerates); ref = the distance by an
+\* independent two-row dynamic programme in the driver, dist / dist_r = levenshtein_distance(short, long) / (long, short),
+\* summ = ErrorsSummary.from_lists(short, long)
+S1 == Ok(Tr.dist) /\ Tr.dist.v = Tr.ref /\ Ok(Tr.dist_r) /\ Tr.dist_r.v = Tr.ref
+S32 == Ok(Tr.summ) /\ Tr.summ.errors = Tr.ref /\ Tr.summ.subs + Tr.summ.inss + Tr.summ.dels = Tr.ref
 MaskOf == IF Tr.kind = "pair"
           THEN B(C1, 1) + B(C2, 2) + B(C4, 4) + B(C8, 8) + B(C16, 16) + B(C32, 32) + B(D128, 128)
+          ELSE IF Tr.kind = "scale" THEN B(S1, 1) + B(S32, 32)
           ELSE B(C64, 64)
 
 TInit == /\ tid \in 1..NTraces
